@@ -19,13 +19,17 @@ def route(case):
     if case.startswith("W "):
         return "radius"
     return "aaa_race" if case.startswith("Sr ") else "aaa"
-# first variant: all three repairs (the theorems are proved for it); last: the code as found.
-# c = counter regress undetected, s = Stop without open accounting, a = Active overwrites a restored checkpoint
-VARIANTS = ["repaired", "d_c", "d_s", "d_a", "d_cs", "d_ca", "d_sa", "defective"]
-FLAGS = {"repaired": "", "d_c": "c", "d_s": "s", "d_a": "a", "d_cs": "cs", "d_ca": "ca", "d_sa": "sa", "defective": "csa"}
-SIG = {"c": "applyVPPCounters-regress-compared-with-zero-baseline",
-       "s": "handleSessionRelease-stop-without-accounting-entry",
-       "a": "handleSessionLifecycle-start-over-restored-checkpoint"}
+# Model variants v<s><o><l>: /repo HEAD plus any subset of the three OPEN repairs (1 = repaired):
+#   s  fix_sent    a high-water mark of every value sent is kept and used as the floor of the next report
+#   o  fix_order   the provider calls of one session arrive in the order they were issued
+#   l  fix_l2stop  the Stop of an l2gw session reads the l2gw stats segment
+# first variant: all repairs (the full theorems); last: /repo HEAD.  (The three defects of the code as first found are
+# fixed in /repo; a regression of any of them matches no variant and is a VIOLATION.)
+VARIANTS = ["repaired", "v011", "v101", "v110", "v001", "v010", "v100", "head"]
+FLAGS = {"repaired": "", "v011": "s", "v101": "o", "v110": "l", "v001": "so", "v010": "sl", "v100": "ol", "head": "sol"}
+SIG = {"s": "sendAccountingUpdate-sent-value-not-remembered-when-unacknowledged",
+       "o": "start-stop-interim-sent-from-unordered-goroutines",
+       "l": "handleSessionRelease-l2gw-stop-reads-interface-table"}
 RULE = ("One case = one history of the real AAA component with 1-4 sessions (two of them share an interim bucket; "
         "IPoE, PPPoE and l2gw payloads; l2gw sessions read the l2gw stats segment - access and handoff entry - on a tick, "
         "with entries missing / segment unavailable / segment restarted): lifecycle-active (repeated), restored (same or renumbered interface), released "
@@ -41,7 +45,10 @@ RULE = ("One case = one history of the real AAA component with 1-4 sessions (two
         "stats source blocks every handler at its snapshot read until all handlers of the group have reached it or "
         "returned; groups of Released/tick have a schedule-independent outcome and are compared exactly (also under "
         "the race detector), groups with Active/Restored are judged by the Start/Stop counts every interleaving "
-        "allows; each such history is run 5 times and must repeat. Wire part: the real RADIUS Provider (Start/Update/StopAccounting over a real radiusConn) against a loopback "
+        "allows; each such history is run 5 times and must repeat. Asynchronous delivery: histories in which StartAccounting calls are held back inside the provider fake "
+        "(H,S) while ticks / releases / further announcements happen, then let through (U); compared exactly: the order "
+        "in which calls ARRIVE at the provider; verdict bits brk / mono / snt (every value sent) / ord (strict bracket) "
+        "are computed in Go on the arrival stream. Wire part: the real RADIUS Provider (Start/Update/StopAccounting over a real radiusConn) against a loopback "
         "UDP accounting server; counters at and around 2^32, 2^33, 2^40, 2^63, 2^64-1 for every status type, sessions "
         "growing through those boundaries; compared: attributes 40/42/43/52/53/47/48 of every Accounting-Request and the "
         "monotone monitor on the 64-bit values the server reconstructs. Non-trivial: at least one Interim and a Stop or "
@@ -286,6 +293,44 @@ def gen_wire(rng):
     return "W " + " ".join(recs)
 
 
+def gen_hold(rng):
+    """delayed Start goroutines: H,S ; announcements ; ticks / releases while the Start is still on its way ; U"""
+    k = rng.choice([1, 1, 2])
+    sess = rng.sample(POOL, k)
+    tys = [rng.choice("iipg") for _ in sess]
+    head = ["S", str(k)] + ["%s:%d:%s" % (sid, b, t) for (sid, b), t in zip(sess, tys)]
+    pl = Plane(rng, False)
+    pl.l2gw = "g" in tys
+    ifx = {x: rng.choice(IFX) for x in range(k)}
+    ops = []
+    if rng.random() < 0.3:
+        ops.append("A,%d,%d,%d" % (0, ifx[0], rng.choice(IFX)))
+    ops.append("H,S")
+    for _ in range(rng.choice([2, 3, 4, 6])):
+        x = rng.randrange(k)
+        r = rng.random()
+        pl.evolve()
+        if r < 0.35:
+            ops.append("A,%d,%d,%d" % (x, ifx[x], rng.choice(IFX)))
+        elif r < 0.65:
+            ops.append("T,%d,%d,%s" % (sess[x][1], rng.choice([0, 0, 1 << x]), snap_tok(pl.snapshot())))
+        elif r < 0.9:
+            ops.append("X,%d,%s" % (x, snap_tok(pl.snapshot())))
+        else:
+            ops.append("R,%d,%d,%d" % (x, ifx[x], rng.choice(IFX)))
+    if rng.random() < 0.3:
+        ops.append("H,-")
+    ops.append("U")
+    for _ in range(rng.randrange(0, 3)):
+        x = rng.randrange(k)
+        pl.evolve()
+        ops.append(rng.choice(["T,%d,0,%s" % (sess[x][1], snap_tok(pl.snapshot())), "A,%d,%d,%d" % (x, ifx[x], ifx[x]),
+                               "X,%d,%s" % (x, snap_tok(pl.snapshot()))]))
+    if rng.random() < 0.5:
+        ops.append("U")
+    return " ".join(head + ops)
+
+
 def gen_conc(rng, racy):
     """history = sequential prefix, one forced-overlap group, (deterministic groups only) a sequential suffix.
     Deterministic group: 2-4 duplicated Released of one session, optionally Released of other sessions and one tick.
@@ -378,6 +423,11 @@ def gen_cases(rng, tier, budget):
     cases += ["S 1 s7:7:i A,0,5 C/5:20:2:2:2/X,0/A,0,5/X,0", "S 1 s7:7:i A,0,5 C/e/X,0/R,0,6/X,0/X,0", "S 1 s7:7:i C/e/X,0/A,0,5"]
     for i in range(40 if tier == "quick" else 500):
         cases.append(gen_conc(rng, True))
+    # asynchronous delivery: delayed Start goroutines
+    cases += ["S 1 s7:7:i H,S A,0,5 X,0,5:9:9:9:9 U", "S 1 s7:7:i H,S A,0,5 T,7,0,5:400:4:4:4 X,0,5:500:5:5:5 U H,- A,0,5",
+              "S 1 s7:7:i H,S A,0,5 T,7,0,5:400:4:4:4 U T,7,0,5:500:5:5:5 X,0,e"]
+    for i in range(120 if tier == "quick" else 2000):
+        cases.append(gen_hold(rng))
     # wire part
     g = 2 ** 32
     cases += ["W S,0,0,0,0 I,3000000000,4000000000,3000000,4000000 I,%d,%d,4295967,8589939 E,%d,%d,4296967,8589943" % (
@@ -428,14 +478,16 @@ def classify(case, impl, model):
     ic, idump, iv = parts(impl)[:3]
     mc, mdump, mv = parts(model)[:3]
     names = ["a second Start inside one bracket", "a Stop that answers no open accounting (or a second Stop)",
-             "reported counters went backwards"]
+             "reported counters went below the last acknowledged report",
+             "reported counters went below an earlier report of the bracket (sent, not acknowledged)",
+             "calls reached the provider outside the bracket order (Interim/Stop before Start, or after Stop)"]
     bad = []
     for tok in iv.split():
         sid, _, bits = tok.partition("=")
-        for b, nm in zip(bits[:3], names):
+        for b, nm in zip(bits[:5], names):
             if b == "0":
                 bad.append("%s: %s" % (sid, nm))
-    mbad = "0" in "".join(t.partition("=")[2][:3] for t in mv.split())
+    mbad = "0" in "".join(t.partition("=")[2][:5] for t in mv.split())
     diff = ""
     if ic != mc:
         ig, mg = ic.split("] "), mc.split("] ")
@@ -599,5 +651,5 @@ def distribution(cases, impl):
                 d["calls"]["E"] += 1
             elif tok[0] == "I":
                 d["calls"]["I_ok" if tok.endswith(":k") else "I_fail"] += 1
-        d["verdict_bits_zero"] += sum(x.partition("=")[2][:3].count("0") for x in verd.split())
+        d["verdict_bits_zero"] += sum(x.partition("=")[2][:5].count("0") for x in verd.split())
     return d
